@@ -90,6 +90,20 @@ def index (r : Rng α) (row col : Nat) : Res α :=
     | some v => .ok v
     | none => .panic "index out of bounds"
 
+/-- `Index<usize>` / `IndexMut<usize>` (a whole row): `&self.inner[index * width .. (index + 1) * width]` — slice
+    indexing panics when the end exceeds the length; on an EMPTY range the width is 0 and every index yields the
+    empty slice -/
+def indexRow (r : Rng α) (i : Nat) : Res (List α) :=
+  if (i + 1) * r.width ≤ r.inner.length then .ok ((r.inner.drop (i * r.width)).take r.width)
+  else .panic "range end index out of range for slice"
+
+/-- `IndexMut<(usize, usize)>` followed by an assignment: same assertion as `Index`, then the cell is overwritten;
+    the rectangle never changes -/
+def indexSet (r : Rng α) (row col : Nat) (v : α) : Res (Rng α) :=
+  if ¬ (col < r.width ∧ row < r.height) then .panic "index out of bounds"
+  else if row * r.width + col < r.inner.length then .ok { r with inner := r.inner.set (row * r.width + col) v }
+  else .panic "index out of bounds"
+
 /-- `slice.chunks(w)` with `k` chunks -/
 def chunksN (w : Nat) : Nat → List α → List (List α)
   | 0, _ => []
@@ -98,6 +112,9 @@ def chunksN (w : Nat) : Nat → List α → List (List α)
 /-- `Range::rows` collected -/
 def rows (r : Rng α) : List (List α) :=
   if r.inner.length = 0 then [] else chunksN r.width (nChunks r.inner.length r.width) r.inner
+
+/-- `Range::headers` before the `to_string` of each cell: the first row, `None` for an empty range -/
+def firstRow (r : Rng α) : Option (List α) := (rows r).head?
 
 /-- `Range::cells` collected: `(i / width, i % width, v)` -/
 def cellsFrom (w : Nat) : Nat → List α → List (Nat × Nat × α)
